@@ -1,6 +1,6 @@
 (* C05 - Point and cloud timestamps are an exact function of the packet clock. *)
 From RS Require Import Base.Tac Base.Bytes Base.Dyadic Model.Desc Model.Kernels Model.Decoder Model.Driver Model.Oracles.
-From RS Require Import Gen.Kernels_gen Proofs.Eq_Time.
+From RS Require Import Gen.Kernels_gen Proofs.Eq_Time Proofs.Timestamps2.
 From RS Require Import Gen.Params_gen Proofs.Stream Proofs.Slots Proofs.TimeCodec Proofs.Timestamps Proofs.DriverInv.
 Local Open Scope Z_scope.
 
@@ -49,6 +49,48 @@ Theorem C05_T5_cloud_ts_last d c s b host1 host2 v th now :
   Forall stamped_last (clouds_of (snd f)) /\ open_inv (fst (fst f)) (s_prev_point_ts (mr_state r)).
 Proof. exact (mech_packet_stamped d c s b host1 host2 v th now). Qed.
 Print Assumptions C05_T5_cloud_ts_last.
+
+(* T5b: last-slot stamping in EVERY mode (dense or NaN-kept): whenever a block of a mechanical packet opens a new cloud, the stamp
+   it hands over for the cloud it closes is the time of the last slot of the block before it (for the first block: of the last
+   block of the previous packet) - whether or not that slot yielded a point; and the value carried to the next packet is the
+   time of the last slot of the last block processed *)
+Theorem C05_T5b_stamp_last_slot d c t w sect b pkt_ts its blk s : c_ts_first c = false -> 0 < d_chans_per_blk d ->
+  let r := mech_blocks d c t w sect b pkt_ts its blk s in
+  stamps_last d t pkt_ts (s_prev_point_ts s) its (snd (fst r)) /\
+  s_prev_point_ts (fst (fst r)) = last_end d t pkt_ts (s_prev_point_ts s) its (snd (fst r)).
+Proof. intros H1 H2. exact (mech_blocks_stamps_last d c t w sect b pkt_ts H1 H2 its blk s). Qed.
+(* T6: first-point stamping (ts_first_point): the stamp handed over is the time of the block at which the frame in progress was
+   opened, i.e. of the block of the most recent split (the carried-in value for a frame opened in an earlier packet; for a frame
+   opened by no split at all - the first of a session - that value is the initial 0: recorded finding R1) *)
+Theorem C05_T6_stamp_first_block d c t w sect b pkt_ts its blk s : c_ts_first c = true ->
+  let r := mech_blocks d c t w sect b pkt_ts its blk s in
+  stamps_first pkt_ts (s_first_point_ts s) its (snd (fst r)) /\
+  s_first_point_ts (fst (fst r)) = first_end pkt_ts (s_first_point_ts s) its (snd (fst r)).
+Proof. intros H1. exact (mech_blocks_stamps_first d c t w sect b pkt_ts H1 its blk s). Qed.
+(* ... and a cloud delivered while a packet's blocks are fed carries exactly the stamp of the block whose split delivered it *)
+Theorem C05_T5b_cloud_carries_stamp bs v th now :
+  Forall (fun cl => exists bo, In bo bs /\ bo_split bo = true /\ cl_ts cl = bo_cloud_ts bo) (clouds_of (snd (feed_blocks v th now bs))).
+Proof. exact (feed_blocks_cloud_ts bs v th now). Qed.
+Print Assumptions C05_T5b_cloud_carries_stamp.
+(* T5c / T6b, MEMS: a (sub-)packet hands over the time of the last block of the previous packet, or with ts_first_point the
+   header time of the packet that opened the frame; the packet that splits becomes that packet *)
+Theorem C05_T5c_mems_stamp d c s b base h1 h2 :
+  let r := decode_msop_mems_sub d c s b base h1 h2 in
+  let pkt_ts := fst (pkt_time d c 0 b base h1 h2) in
+  let bo := snd (fst (fst r)) in
+  let s' := fst (fst (fst r)) in
+  bo_cloud_ts bo = (if c_ts_first c then s_first_point_ts s else s_prev_point_ts s) /\
+  s_first_point_ts s' = (if bo_split bo then pkt_ts else s_first_point_ts s) /\
+  s_prev_pkt_ts s' = pkt_ts.
+Proof. exact (mems_sub_stamp d c s b base h1 h2). Qed.
+(* T4b, MEMS points: header time plus the block's microsecond offset, for every point of the block (valid or placeholder) *)
+Theorem C05_T4b_mems_point_ts d c w b base coff ts chan dual p : In p (mems_channel_points d c w b base coff ts chan dual) -> p_ts p = ts.
+Proof. exact (mems_point_ts d c w b base coff ts chan dual p). Qed.
+Theorem C05_T4b_mems_block_ts d c w b base pkt_ts dual blk :
+  snd (mems_block_points d c w b base pkt_ts dual blk) =
+  pkt_ts + (let bb := skipn (Z.to_nat (base + d_off_blocks d + blk * d_sizeof_block d)) b in
+            if d_sizeof_toff d =? 2 then be16 bb (d_off_blk_toff d) else u8 bb (d_off_blk_toff d)) * 1000.
+Proof. exact (mems_block_ts d c w b base pkt_ts dual blk). Qed.
 
 (* T7: with use_lidar_clock no output depends on the host clock *)
 Theorem C05_T7_host_independent bl tbl v th now host host' b stale : c_lidar_clock (v_cfg v) = true ->
